@@ -1,0 +1,260 @@
+//go:build verif
+
+package twig
+
+// Observation hooks for the external verification harness (/verif). Everything in
+// this file is compiled only with the "verif" build tag and only reads engine state
+// (the pool scan puts back everything it takes).
+
+import (
+	"fmt"
+	"reflect"
+	"sort"
+	"strings"
+	"sync"
+)
+
+// VerifFingerprint returns a canonical dump of the node tree a template owns
+// (node kinds, fields, literal values, child order) without rendering it.
+func VerifFingerprint(t *Template) string {
+	if t == nil {
+		return "<nil template>"
+	}
+	var b strings.Builder
+	b.WriteString("name=" + t.name + ";")
+	verifDump(&b, reflect.ValueOf(t.nodes), 0)
+	return b.String()
+}
+
+func verifDump(b *strings.Builder, v reflect.Value, depth int) {
+	if depth > 200 {
+		b.WriteString("<deep>")
+		return
+	}
+	if !v.IsValid() {
+		b.WriteString("nil")
+		return
+	}
+	switch v.Kind() {
+	case reflect.Interface, reflect.Ptr:
+		if v.IsNil() {
+			b.WriteString("nil")
+			return
+		}
+		verifDump(b, v.Elem(), depth+1)
+	case reflect.Struct:
+		b.WriteString(v.Type().Name())
+		b.WriteString("{")
+		for i := 0; i < v.NumField(); i++ {
+			b.WriteString(v.Type().Field(i).Name)
+			b.WriteString(":")
+			verifDump(b, v.Field(i), depth+1)
+			b.WriteString(",")
+		}
+		b.WriteString("}")
+	case reflect.Slice, reflect.Array:
+		if v.Kind() == reflect.Slice && v.IsNil() {
+			b.WriteString("[]")
+			return
+		}
+		b.WriteString("[")
+		for i := 0; i < v.Len(); i++ {
+			verifDump(b, v.Index(i), depth+1)
+			b.WriteString(",")
+		}
+		b.WriteString("]")
+	case reflect.Map:
+		parts := make([]string, 0, v.Len())
+		iter := v.MapRange()
+		for iter.Next() {
+			var kb, vb strings.Builder
+			verifDump(&kb, iter.Key(), depth+1)
+			verifDump(&vb, iter.Value(), depth+1)
+			parts = append(parts, kb.String()+"=>"+vb.String())
+		}
+		sort.Strings(parts)
+		b.WriteString("map{" + strings.Join(parts, ";") + "}")
+	case reflect.String:
+		fmt.Fprintf(b, "%q", v.String())
+	case reflect.Bool:
+		fmt.Fprintf(b, "%v", v.Bool())
+	case reflect.Int, reflect.Int8, reflect.Int16, reflect.Int32, reflect.Int64:
+		fmt.Fprintf(b, "%d", v.Int())
+	case reflect.Uint, reflect.Uint8, reflect.Uint16, reflect.Uint32, reflect.Uint64:
+		fmt.Fprintf(b, "%d", v.Uint())
+	case reflect.Float32, reflect.Float64:
+		fmt.Fprintf(b, "%v", v.Float())
+	default:
+		b.WriteString("<" + v.Kind().String() + ">")
+	}
+}
+
+// VerifCachedNames lists the names in the template cache, sorted.
+func (e *Engine) VerifCachedNames() []string {
+	names := e.GetCachedTemplateNames()
+	sort.Strings(names)
+	return names
+}
+
+// VerifCached returns the cached template for name (nil if none).
+func (e *Engine) VerifCached(name string) *Template {
+	e.mu.RLock()
+	defer e.mu.RUnlock()
+	return e.templates[name]
+}
+
+// VerifTemplateSource returns a template's source text.
+func VerifTemplateSource(t *Template) string {
+	if t == nil {
+		return ""
+	}
+	return t.source
+}
+
+func verifNodePools() map[string]*sync.Pool {
+	return map[string]*sync.Pool{
+		"RootNodePool": &RootNodePool, "TextNodePool": &TextNodePool, "PrintNodePool": &PrintNodePool,
+		"IfNodePool": &IfNodePool, "ForNodePool": &ForNodePool, "BlockNodePool": &BlockNodePool,
+		"ExtendsNodePool": &ExtendsNodePool, "IncludeNodePool": &IncludeNodePool, "SetNodePool": &SetNodePool,
+		"CommentNodePool": &CommentNodePool, "MacroNodePool": &MacroNodePool, "ImportNodePool": &ImportNodePool,
+		"FromImportNodePool": &FromImportNodePool, "VerbatimNodePool": &VerbatimNodePool, "DoNodePool": &DoNodePool,
+		"ApplyNodePool": &ApplyNodePool, "BinaryNodePool": &BinaryNodePool, "GetAttrNodePool": &GetAttrNodePool,
+		"GetItemNodePool": &GetItemNodePool, "FilterNodePool": &FilterNodePool, "TestNodePool": &TestNodePool,
+		"UnaryNodePool": &UnaryNodePool, "ConditionalNodePool": &ConditionalNodePool, "ArrayNodePool": &ArrayNodePool,
+		"HashNodePool": &HashNodePool, "FunctionNodePool": &FunctionNodePool, "VariableNodePool": &VariableNodePool,
+		"LiteralNodePool": &LiteralNodePool,
+	}
+}
+
+func verifCollect(v reflect.Value, seen map[uintptr]string, depth int) {
+	if !v.IsValid() || depth > 200 {
+		return
+	}
+	switch v.Kind() {
+	case reflect.Interface:
+		if !v.IsNil() {
+			verifCollect(v.Elem(), seen, depth+1)
+		}
+	case reflect.Ptr:
+		if v.IsNil() {
+			return
+		}
+		if v.Elem().Kind() == reflect.Struct {
+			addr := v.Pointer()
+			if _, ok := seen[addr]; ok {
+				return
+			}
+			seen[addr] = v.Elem().Type().Name()
+		}
+		verifCollect(v.Elem(), seen, depth+1)
+	case reflect.Struct:
+		for i := 0; i < v.NumField(); i++ {
+			verifCollect(v.Field(i), seen, depth+1)
+		}
+	case reflect.Slice, reflect.Array:
+		for i := 0; i < v.Len(); i++ {
+			verifCollect(v.Index(i), seen, depth+1)
+		}
+	case reflect.Map:
+		iter := v.MapRange()
+		for iter.Next() {
+			verifCollect(iter.Key(), seen, depth+1)
+			verifCollect(iter.Value(), seen, depth+1)
+		}
+	}
+}
+
+// VerifPoolAliases is a pool sanitizer: it reports every node that is reachable from a
+// template cached by one of the given engines (or from one of the extra templates) and
+// at the same time sits in an object pool, i.e. a node that a later parse may recycle
+// while the template still uses it. The scan drains each pool (New temporarily nil) and
+// puts everything back; run it from the only running goroutine with GOMAXPROCS(1) so
+// that per-P private slots are visible. Returns the aliases and the number of pooled
+// objects inspected.
+func VerifPoolAliases(engines []*Engine, extra []*Template) ([]string, int) {
+	live := map[uintptr]string{}
+	owner := map[uintptr]string{}
+	add := func(t *Template, label string) {
+		before := len(live)
+		_ = before
+		tmp := map[uintptr]string{}
+		verifCollect(reflect.ValueOf(t.nodes), tmp, 0)
+		for a, k := range tmp {
+			live[a] = k
+			owner[a] = label
+		}
+	}
+	for ei, e := range engines {
+		e.mu.RLock()
+		for name, t := range e.templates {
+			add(t, fmt.Sprintf("engine%d:%s", ei, name))
+		}
+		e.mu.RUnlock()
+	}
+	for i, t := range extra {
+		if t != nil {
+			add(t, fmt.Sprintf("handle%d", i))
+		}
+	}
+
+	var aliases []string
+	inspected := 0
+	pools := verifNodePools()
+	names := make([]string, 0, len(pools))
+	for n := range pools {
+		names = append(names, n)
+	}
+	sort.Strings(names)
+	for _, pname := range names {
+		pool := pools[pname]
+		savedNew := pool.New
+		pool.New = nil
+		var drained []interface{}
+		for {
+			x := pool.Get()
+			if x == nil {
+				break
+			}
+			drained = append(drained, x)
+			if len(drained) > 1<<20 {
+				break
+			}
+		}
+		pool.New = savedNew
+		for _, x := range drained {
+			inspected++
+			rv := reflect.ValueOf(x)
+			if rv.Kind() == reflect.Ptr {
+				if kind, ok := live[rv.Pointer()]; ok {
+					aliases = append(aliases, fmt.Sprintf("%s holds %s still used by %s", pname, kind, owner[rv.Pointer()]))
+				}
+			}
+			pool.Put(x)
+		}
+	}
+	sort.Strings(aliases)
+	return aliases, inspected
+}
+
+// VerifAttrCacheStats reads the attribute cache's size counters under its lock.
+func VerifAttrCacheStats() (size, max int) {
+	attributeCache.RLock()
+	defer attributeCache.RUnlock()
+	return len(attributeCache.m), attributeCache.maxSize
+}
+
+// VerifUnregisterFilter removes a filter from the environment so that ApplyFilter's
+// built-in fallback for that name becomes reachable.
+func (e *Engine) VerifUnregisterFilter(name string) {
+	delete(e.environment.filters, name)
+}
+
+// VerifYield, when set (before any goroutine uses the engine), is called at the points
+// named in verif_yield_on.go's callers to widen race windows.
+var VerifYield func(point string)
+
+func verifYield(point string) {
+	if f := VerifYield; f != nil {
+		f(point)
+	}
+}
